@@ -5,6 +5,11 @@ case = {
   'variant': 'call' | 'open',
   'prog': ['RI'|'RM'|'IT'|'RT', ...]      # open() variant only: explicit steps after the request was sent
   'nreq': 0|1|2                           # request messages (stream-request cardinalities; unary: always 1)
+  'send': 'flag' | 'implicit' | 'explicit_end' | 'req_first' | 'req_first_implicit'
+                                          # open() variant: how the request is sent and ended -- end=True on the
+                                          # last message (or on send_request); unary message WITHOUT end=True
+                                          # (ended implicitly); messages then `await stream.end()`; an explicit
+                                          # send_request() first.  All are legal and end the outgoing stream.
   'codec': bool                           # status_details_codec=ProtoStatusDetailsCodec() present
   'csub': 'proto' | 'json'                # __content_subtype__ of the channel's message codec
   'lis': 'imt' subset, e.g. 'it'          # suspending listeners: RecvInitialMetadata / RecvMessage /
@@ -163,8 +168,21 @@ def run_case(case, span=50.0):
             prog = case.get('prog', [])
             async with method.open() as stream:
                 info['stream'] = stream
+                send = case.get('send', 'flag')
+                if send in ('req_first', 'req_first_implicit') and not (card[0] == 'S' and nreq == 0):
+                    await stream.send_request()
                 if card in ('UU', 'US'):
-                    await stream.send_message(b'q', end=True)
+                    # a unary request is ended by its only message, with or without end=True
+                    if send in ('implicit', 'req_first_implicit'):
+                        await stream.send_message(b'q')
+                    else:
+                        await stream.send_message(b'q', end=True)
+                elif send in ('explicit_end', 'req_first_implicit'):
+                    if nreq == 0:
+                        await stream.send_request()
+                    for _ in range(nreq):
+                        await stream.send_message(b'q')
+                    await stream.end()
                 else:
                     for _ in range(max(0, nreq - 1)):
                         await stream.send_message(b'q')
